@@ -176,6 +176,25 @@ func (e *env) lastReq() string {
 // waitReq waits until more than n requests were written, or the number of finished app
 // calls exceeds done, or d elapsed. It reports which.
 func (e *env) waitReq(n, done int, d time.Duration) string {
+	return e.waitFor(n, func() bool { return e.appDone > done }, d)
+}
+
+// waitCall waits until more than n requests were written, or the call c has returned, or d
+// elapsed. It reports which.
+func (e *env) waitCall(n int, c *call, d time.Duration) string {
+	return e.waitFor(n, func() bool {
+		select {
+		case <-c.done:
+			return true
+		default:
+			return false
+		}
+	}, d)
+}
+
+// waitFor: "req" = more than n requests written; "done" = finished() (evaluated under e.mu);
+// "timeout" = d elapsed.
+func (e *env) waitFor(n int, finished func() bool, d time.Duration) string {
 	// the wake-up is armed AFTER the deadline is fixed and fires after it (a wake-up that
 	// comes before the deadline would be lost: the waiter would go back to sleep for good)
 	deadline := time.Now().Add(d)
@@ -187,7 +206,7 @@ func (e *env) waitReq(n, done int, d time.Duration) string {
 		switch {
 		case len(e.reqs) > n:
 			return "req"
-		case e.appDone > done:
+		case finished():
 			return "done"
 		case !time.Now().Before(deadline):
 			return "timeout"
@@ -367,9 +386,9 @@ func (e *env) start(name string, f func() error) *call {
 			}
 			e.mu.Lock()
 			e.appDone++
+			close(c.done)
 			e.cond.Broadcast()
 			e.mu.Unlock()
-			close(c.done)
 		}()
 		err := f()
 		if err != nil {
